@@ -57,6 +57,7 @@ class _IdleReleaseInternalRunAdapter(BaseInternalRunAdapterDecorator):
         super().__init__(decorated)
         self._runtime = runtime
         self._store = store
+        self._marked_idle = False
 
     @override
     async def write_to_event_stream(self, event: Event) -> None:
@@ -65,9 +66,19 @@ class _IdleReleaseInternalRunAdapter(BaseInternalRunAdapterDecorator):
             await self._store.update_handler_status(
                 self.run_id, status="running", idle_since=idle_since
             )
+            self._marked_idle = True
         await super().write_to_event_stream(event)
         if isinstance(event, WorkflowIdleEvent):
             self._runtime._spawn_task(self._runtime._deferred_release(self.run_id))
+
+    @override
+    async def on_tick(self, tick: WorkflowTick) -> None:
+        await super().on_tick(tick)
+        if self._marked_idle:
+            # The run is working again (an external event or one of its own timers
+            # fired): it must not be released as idle while it does.
+            self._marked_idle = False
+            await self._store.update_handler_status(self.run_id, idle_since=None)
 
 
 class IdleReleaseExternalRunAdapter(BaseExternalRunAdapterDecorator):
